@@ -3,7 +3,7 @@ package rules
 import (
 	"fmt"
 	"go/ast"
-	"go/token"
+	"regexp"
 	"strings"
 
 	"pigeonverif/internal/load"
@@ -207,48 +207,53 @@ func basicLatinSiblingForms(c *Ctx, rule string) {
 		}
 		param := pf.Type.Params.List[0].Names[0].Name
 		var bad []string
-		// fold: `cur = unicode.ToLower(cur)` under exactly <param>.ignoreCase, before the first member loop
-		var foldPos, firstLoop token.Pos
-		ast.Inspect(pf.Body, func(n ast.Node) bool {
-			switch x := n.(type) {
-			case *ast.AssignStmt:
-				if len(x.Lhs) == 1 && nospace(x.Lhs[0]) == "cur" && nospace(x.Rhs[0]) == "unicode.ToLower(cur)" {
-					foldPos = x.Pos()
-					if gs := guardsOf(pf.Body, x.Pos()); len(gs) != 1 || gs[0] != param+".ignoreCase" {
-						bad = append(bad, v.Where(x.Pos())+": the input rune is folded under ["+strings.Join(gs, ";")+"], expected exactly "+param+".ignoreCase: the table is computed for fold-then-test on all three member sources")
-					}
-				}
-			case *ast.RangeStmt:
-				if !firstLoop.IsValid() && strings.HasPrefix(nospace(x.X), param+".") {
-					firstLoop = x.Pos()
-				}
-			case *ast.ForStmt:
-				if !firstLoop.IsValid() && x.Cond != nil && strings.Contains(nospace(x.Cond), param+".ranges") {
-					firstLoop = x.Pos()
-				}
-			}
-			return true
-		})
-		if !foldPos.IsValid() {
-			bad = append(bad, "the general path never folds the input rune (cur = unicode.ToLower(cur))")
-		} else if firstLoop.IsValid() && foldPos > firstLoop {
-			bad = append(bad, "the input rune is folded after a member source was already tested")
-		}
-		// range test
+		// on the normalised paths of the function (helpers expanded): the input rune is folded exactly on the paths
+		// where <param>.ignoreCase holds, before any member source is tested, and every member test uses the folded
+		// rune there; the range test of the pair loop reads low <= rune <= high
 		cur := general{}
-		ast.Inspect(pf.Body, func(n ast.Node) bool {
-			be, ok := n.(*ast.BinaryExpr)
-			if !ok || be.Op != token.LAND {
-				return true
+		nGeneral := 0
+		rangeRe := regexp.MustCompile(`^(.+?)(>=|>)` + regexp.QuoteMeta(param) + `\.ranges\[(\$[0-9]+|#[0-9]+)\]$`)
+		rangeHiRe := regexp.MustCompile(`^(.+?)(<=|<)` + regexp.QuoteMeta(param) + `\.ranges\[(\$[0-9]+|#[0-9]+)\+1\]$`)
+		for _, p := range c.vnorm(v).without("read", "restore", "failAt", "sliceFrom", "in", "out", "addErr", "addErrAt").normPaths(pf) {
+			iLoop := p.evIndex("loop", 0, func(s string) bool {
+				return strings.Contains(s, param+".chars") || strings.Contains(s, param+".ranges") || strings.Contains(s, param+".classes")
+			})
+			if iLoop < 0 {
+				continue // not the general path (table path, end of input)
 			}
-			l, rr := nospace(be.X), nospace(be.Y)
-			if strings.HasPrefix(l, "cur>") && strings.Contains(l, param+".ranges[i]") && strings.HasPrefix(rr, "cur<") && strings.Contains(rr, param+".ranges[i+1]") {
-				cur.ok = true
-				cur.loIncl = strings.HasPrefix(l, "cur>=")
-				cur.hiIncl = strings.HasPrefix(rr, "cur<=")
+			nGeneral++
+			iFold := p.evIndex("call", 0, func(s string) bool { return strings.HasPrefix(s, "unicode.ToLower(") })
+			folds := p.holds(param + ".ignoreCase")
+			if !folds && !p.holds("!"+param+".ignoreCase") {
+				bad = append(bad, "whether the input rune is folded depends on more than "+param+".ignoreCase ["+abbreviate(strings.Join(p[:iLoop].facts(), " "))+"]: the table is computed for fold-then-test on all three member sources")
 			}
-			return true
-		})
+			switch {
+			case folds && (iFold < 0 || iFold > iLoop):
+				bad = append(bad, "with "+param+".ignoreCase set the input rune is not folded before the first member source is tested: the table is computed for fold-then-test on all three member sources")
+			case !folds && iFold >= 0:
+				bad = append(bad, "the input rune is folded on a path that does not establish "+param+".ignoreCase")
+			}
+			for _, f := range p[iLoop:].facts() {
+				mentions := strings.Contains(f, param+".chars[") || strings.Contains(f, param+".ranges[") || strings.Contains(f, param+".classes[")
+				if !mentions {
+					continue
+				}
+				if folds != strings.Contains(f, "unicode.ToLower(") {
+					bad = append(bad, "the member test `"+abbreviate(f)+"` does not use the rune as folded (or not) for this path")
+				}
+				if m := rangeRe.FindStringSubmatch(f); m != nil {
+					cur.ok = true
+					cur.loIncl = m[2] == ">="
+				}
+				if m := rangeHiRe.FindStringSubmatch(f); m != nil {
+					cur.hiIncl = m[2] == "<="
+				}
+			}
+		}
+		if nGeneral == 0 {
+			bad = append(bad, "no path of the general (non-table) matching was found")
+		}
+		bad = uniq(bad)
 		if !cur.ok {
 			bad = append(bad, "range test `cur >= ranges[i] && cur <= ranges[i+1]` not found")
 		} else if gen == nil {
